@@ -368,6 +368,7 @@ type conv struct {
 	helper   bool // the plugin leaves a helper process behind that holds its stderr
 	exit     int  // exit status of the plugin process when it finishes normally
 	onInt    int  // >0: the plugin handles the client's interrupt and exits with this status
+	stz      int  // which stanza list the identity machine is handed (index into stanzaSets)
 	id       int
 }
 
@@ -424,6 +425,19 @@ var identityStanzas = []*age.Stanza{
 	{Type: "fancy", Args: []string{"a", "b", "~!"}, Body: body100},
 	{Type: "bare", Args: nil, Body: nil},
 	{Type: "full-line", Args: []string{"48"}, Body: body48},
+}
+
+// stanzaSets: the header stanzas an identity-machine conversation hands to
+// Unwrap. The protocol sends every stanza to the plugin, whatever its type: a
+// plugin may hold the key for a stanza of a native type.
+var stanzaSets = [][]*age.Stanza{
+	identityStanzas,
+	{{Type: "X25519", Args: []string{"TEiF0ypqr+bpvcqXNyCVJpL7OuwPdVwPL7KQEbFDOCc"}, Body: body32}},
+	{{Type: "X25519", Args: []string{"TEiF0ypqr+bpvcqXNyCVJpL7OuwPdVwPL7KQEbFDOCc"}, Body: body32},
+		{Type: "ssh-ed25519", Args: []string{"AShRtQ", "TEiF0ypqr+bpvcqXNyCVJpL7OuwPdVwPL7KQEbFDOCc"}, Body: body32},
+		{Type: "ssh-rsa", Args: []string{"yedO2Q"}, Body: body100}},
+	{{Type: "scrypt", Args: []string{"c2FsdHNhbHRzYWx0c2FsdA", "10"}, Body: body32}},
+	{{Type: "only-unknown", Args: nil, Body: nil}},
 }
 
 var wrapFileKey = []byte("FILEKEY-16-bytes")
@@ -524,6 +538,9 @@ func main() {
 		c.burst = i%4 == 1 && !c.bytewise && len(c.msgs) >= 2
 		// how the plugin PROCESS ends carries no meaning in the protocol
 		c.exit = []int{0, 0, 1, 3, 0, 255, 0}[i%7]
+		if c.machine == identityMachine && i%3 == 1 {
+			c.stz = 1 + (i/3)%(len(stanzaSets)-1)
+		}
 		if i%5 == 2 {
 			c.onInt = 130
 		}
@@ -730,7 +747,7 @@ func runConv(r *mon.Run, env *plug.Env, name string, c *conv) {
 			}
 		} else {
 			call = func() callResult {
-				fk, err := id.Unwrap(identityStanzas)
+				fk, err := id.Unwrap(stanzaSets[c.stz])
 				return callResult{fileKey: fk, err: err}
 			}
 		}
@@ -787,12 +804,15 @@ func runConv(r *mon.Run, env *plug.Env, name string, c *conv) {
 		r.Violate("no-transcript:"+desc, fmt.Sprintf("plugin left no transcript (was it started?): %v; call result err=%v", err, res.err), replayOf(c))
 		return
 	}
-	r.Distinct(fmt.Sprintf("%s bytewise=%v burst=%v timer=%v helper=%v exit=%d onint=%d", desc, c.bytewise, c.burst, c.timer, c.helper, c.exit, c.onInt))
+	r.Distinct(fmt.Sprintf("%s bytewise=%v burst=%v timer=%v helper=%v exit=%d onint=%d stz=%d", desc, c.bytewise, c.burst, c.timer, c.helper, c.exit, c.onInt, c.stz))
 	if c.burst {
 		r.Count("burst_conversations", 1)
 	}
 	r.Count("transcripts_checked", 1)
 	r.Tab("plugin_process_ends_with", fmt.Sprintf("exit=%d/on-interrupt=%d", c.exit, c.onInt))
+	if c.machine == identityMachine {
+		r.Tab("identity_stanza_set", []string{"mixed", "X25519-only", "native-types-only", "scrypt-only", "unknown-only"}[c.stz])
+	}
 	if tr.End == "self-timeout" {
 		hangs.Add(1)
 		r.Violate("hang:"+terminalOf(c), desc+": the client kept the conversation open until the plugin's 30 s self-destruct instead of returning an error", replayOf(c))
@@ -1024,7 +1044,7 @@ func checkPhase1(r *mon.Run, c *conv, tr *plug.Transcript, encoding string, viol
 		return
 	}
 	want = []refage.Stanza{{Type: "add-identity", Args: []string{encoding}}}
-	for _, s := range identityStanzas {
+	for _, s := range stanzaSets[c.stz] {
 		want = append(want, refage.Stanza{Type: "recipient-stanza", Args: append([]string{"0", s.Type}, s.Args...), Body: s.Body})
 	}
 	// add-identity may stand anywhere; the recipient stanzas must keep header order
